@@ -1,7 +1,7 @@
 (** C05 — operations terminate and leave nothing running, even when cancelled mid-flight.
     PARTIAL: the theorems are about the accounting models of the two joins; real time and real goroutine
     liveness are observed by the correspondence harness. *)
-From GV Require Import Base.Prelude Model.Join Proofs.JoinProofs Model.SseLock Proofs.SseLockProofs Model.ElemPanic Proofs.ElemPanicProofs.
+From GV Require Import Base.Prelude Model.Join Proofs.JoinProofs Model.SseLock Proofs.SseLockProofs Model.ElemPanic Proofs.ElemPanicProofs Model.JoinPanic Proofs.JoinPanicProofs.
 From GV Require Import Model.MpLock Proofs.MpLockInv Proofs.MpLockProofs.
 Open Scope nat_scope.
 
@@ -92,3 +92,35 @@ Theorem C05_list_element_panics_join_reached : forall plan tr s,
   (List.length tr + etodo s = 3 * List.length plan + 1)%nat.
 Proof. intros plan tr s R. split; [exact (elems_progress_lemma plan tr s R)|exact (elems_bounded_lemma _ plan tr s R)]. Qed.
 Print Assumptions C05_list_element_panics_join_reached.
+
+
+(** ** the worker-limit list join when element closures end in a recovered panic (Model.JoinPanic), over every
+    interleaving and cancellation instant: the semaphore holds exactly one slot per running closure - none is lost to
+    a panic; short of the join the loop can dispatch or a running closure can finish (the response function is never
+    stuck for good); once nothing runs and nothing is left, [wg.Wait()] returns *)
+Theorem C05_list_join_with_panics : forall plan limit tr s,
+  (0 < limit)%nat -> jrun true (jinit plan limit) tr = Some s ->
+  (j_sem s = j_norm s + j_pan s)%nat /\
+  (jwait_enabled s = false -> jstep true s JDispatch <> None \/ jstep true s JReturn <> None \/ jstep true s JPanic <> None) /\
+  (j_plan s = [] -> (j_norm s + j_pan s = 0)%nat -> jwait_enabled s = true).
+Proof. exact join_with_panics_lemma. Qed.
+Print Assumptions C05_list_join_with_panics.
+
+(** ... and every run is bounded: each step takes a unit of the work that is left *)
+Theorem C05_list_join_with_panics_bounded : forall rd plan limit tr s,
+  jrun rd (jinit plan limit) tr = Some s -> (List.length tr + jtodo s <= 2 * List.length plan + 1)%nat.
+Proof. exact join_with_panics_bounded_lemma. Qed.
+Print Assumptions C05_list_join_with_panics_bounded.
+
+(** Refuted for the closure that hands its slot back after the element store instead of in a deferred call: with one
+    worker the first element panics and keeps the slot - the loop waits in Acquire, nothing runs, nothing but a
+    cancellation of the request can happen any more. *)
+Theorem C05_release_after_store_refuted :
+  exists s, jrun false (jinit [true; false] 1) [JDispatch; JPanic] = Some s /\
+            jwait_enabled s = false /\ jstep false s JDispatch = None /\ jstep false s JReturn = None /\ jstep false s JPanic = None.
+Proof. exact release_after_store_witness. Qed.
+Print Assumptions C05_release_after_store_refuted.
+
+Example C05_list_join_with_panics_nonvacuous :
+  exists s, jrun true (jinit [true; false; false] 2) [JDispatch; JDispatch; JPanic; JCancel; JDispatch; JReturn] = Some s /\ jwait_enabled s = true.
+Proof. exact join_with_panics_sample. Qed.
